@@ -4,10 +4,11 @@ C03  Predictions evaluate the documented analytic models with the fitted paramet
 import decimal
 import itertools
 import math
+import warnings
 
 import numpy as np
 
-from mc.util import call, raised, pick_frames
+from mc.util import call, raised, pick_frames, permuted_series
 from models import numref as R
 
 ID = "C03"
@@ -61,6 +62,13 @@ def cases(tier, seed):
     for md in MIND:
         for nsq in (2, 3, 5):
             yield dict(kind="square", mindist=md, n=nsq)
+    # after a FIT with force coordinates / data coordinates in other containers, predict is still sum_j force_j g(|x - f_j|)
+    # (seed C03-9: force coordinates kept as pandas Series and indexed by label in predict only)
+    for md in (0.0, 0.5):
+        for fc in ("array", "series", "list", "2d", "none"):
+            for cc in ("array", "series", "2d"):
+                for est in ("Spline", "VectorSpline2D"):
+                    yield dict(kind="fitted", mindist=md, fc=fc, cc=cc, est=est)
     for t in ([0.0, 0.0], [4.0, -8.0], [0.5, 1024.0], [-3.25, 2.0 ** 20]):
         for md in (0.0, 0.5):
             yield dict(kind="translate", shift=t, mindist=md)
@@ -277,6 +285,41 @@ def run(case, rec):
             want = R.elastic_design(oe, on, fe, fn, md, 0.5)
             rec.check(not raised(J) and bool(np.all(np.abs(np.asarray(J) - want) <= 64 * R.EPS * (1 + np.abs(want)))), "square elastic Jacobian differs from the formula")
         rec.cls("square")
+        return
+    if kind == "fitted":
+        md = case["mindist"]
+        oe = np.array([0.0, 1.0, 2.5, -1.0, 4.0, 3.0]); on = np.array([0.0, 2.0, 0.5, 3.0, -2.0, 1.5])
+        fe = np.array([0.5, 3.0, -2.0, 1.5]); fn = np.array([1.0, -1.0, 0.75, 4.0])
+        qe = np.array([0.25, 2.0, -0.5, 3.5, 1.0]); qn = np.array([0.5, 0.25, 2.0, -1.0, 3.0])
+        d = 2.0 * oe - on + 0.5 * oe * on + 1.0
+        vec = case["est"] == "VectorSpline2D"
+        if vec and md == 0:
+            md = 0.25
+        form = {"array": lambda a, k=0: a.copy(), "series": lambda a, k=0: permuted_series(a.copy(), k), "list": lambda a, k=0: a.tolist(),
+                "2d": lambda a, k=0: (a.reshape(2, -1) if k == 0 else np.asfortranarray(a.reshape(2, -1)))}
+        fc = None if case["fc"] == "none" else (form[case["fc"]](fe, 0), form[case["fc"]](fn, 1))
+        coords = (form[case["cc"]](oe, 0), form[case["cc"]](on, 1))
+        with warnings.catch_warnings():
+            warnings.simplefilter("ignore")
+            est = vd.VectorSpline2D(mindist=md, poisson=0.25, force_coords=fc, damping=1e-3) if vec else vd.Spline(mindist=md if md else None, force_coords=fc, damping=1e-3)
+            dd = (lambda a: a.reshape(2, -1)) if case["cc"] == "2d" else (lambda a: a)
+            fit = call(rec, est.fit, coords, (dd(d), dd(-d + oe)) if vec else dd(d))
+        if raised(fit):
+            return rec.check(False, "fit raised %r" % (fit,))
+        gfe, gfn = (oe, on) if fc is None else (fe, fn)
+        Jq = R.elastic_design(qe, qn, gfe, gfn, md, 0.25) if vec else R.spline_design(qe, qn, gfe, gfn, md)
+        force = np.asarray(est.force_, dtype=float)
+        rec.check(force.shape == (Jq.shape[1],), "force_ has shape %s, expected (%d,)" % (force.shape, Jq.shape[1]))
+        p = call(rec, est.predict, (qe, qn))
+        if raised(p) or force.shape != (Jq.shape[1],):
+            return rec.check(not raised(p), "predict raised %r" % (p,))
+        got = np.concatenate([np.asarray(c, dtype=float) for c in p]) if vec else np.asarray(p, dtype=float)
+        want = Jq @ force
+        tol = 64 * R.EPS * (np.abs(Jq) @ np.abs(force)) + 1e-300
+        rec.ratio(float(np.max(np.abs(got - want) / tol)))
+        rec.check(bool(np.all(np.abs(got - want) <= tol)), "%s fitted with force_coords as %s and coordinates as %s: predict %s != sum_j force_j g(|x - f_j|) %s"
+                  % (case["est"], case["fc"], case["cc"], got.tolist(), want.tolist()))
+        rec.cls("fitted/%s/%s" % (case["est"], case["fc"]))
         return
     if kind == "translate":
         t = case["shift"]
